@@ -139,10 +139,8 @@ def check(run: Run) -> None:
             full_atoms = Facts(fh, s_).atoms
             raw_keys = {(ast.dump(a), p) for a, p in raw_atoms}
             derived = [(a, p) for a, p in full_atoms if (ast.dump(a), p) not in raw_keys]
-            for a, pol in full_atoms:
-                if (ast.dump(a), pol) in raw_keys and derived and isinstance(a, ast.Call) and not (isinstance(a.func, ast.Name) and a.func.id in ("any", "all", "isinstance", "len", "type")):
-                    continue  # a package predicate: judged through the conditions it stands for
-                about_v = []
+            def about_v(a):
+                out_ = []
                 for x in ast.walk(a):
                     if isinstance(x, (ast.Name, ast.Attribute)) and fh.cfg.has_node(x):
                         try:
@@ -150,21 +148,36 @@ def check(run: Run) -> None:
                         except AnalysisError:
                             continue
                         if tx == vp or root_of(tx) == vp:
-                            about_v.append(tx)
-                if not about_v:
-                    continue  # a test on the selector alone
-                designed = False
+                            out_.append(tx)
+                return out_
+
+            def designed(a, pol) -> bool:
+                """the reason (a has truth value pol) is about the selector alone, or is 'a top-level element is starred'"""
+                if isinstance(a, ast.UnaryOp) and isinstance(a.op, ast.Not):
+                    return designed(a.operand, not pol)
+                if isinstance(a, ast.BoolOp) and ((isinstance(a.op, ast.Or) and pol) or (isinstance(a.op, ast.And) and not pol)):
+                    return all(designed(v_, pol) for v_ in a.values)  # any one of them may be the reason
+                av = about_v(a)
+                if not av:
+                    return True
                 if isinstance(a, ast.Call) and isinstance(a.func, ast.Name) and a.func.id == "any" and len(a.args) == 1 and isinstance(a.args[0], (ast.GeneratorExp, ast.ListComp)) and len(a.args[0].generators) == 1:
                     g = a.args[0].generators[0]
                     e = a.args[0].elt
                     it_ok = isinstance(g.iter, ast.Attribute) and g.iter.attr == "elts" and fh.cfg.has_node(g.iter.value) and strip_sites(fh.term_of(g.iter.value)) == vp
                     elt_ok = isinstance(e, ast.Call) and isinstance(e.func, ast.Name) and e.func.id == "isinstance" and len(e.args) == 2 and isinstance(e.args[0], ast.Name) and isinstance(g.target, ast.Name) and e.args[0].id == g.target.id and ast.unparse(e.args[1]) == "ast.Starred" and not g.ifs
-                    designed = it_ok and elt_ok
-                elif isinstance(a, ast.Call) and isinstance(a.func, ast.Name) and a.func.id == "isinstance" and len(a.args) == 2 and ast.unparse(a.args[1]) == "ast.Starred" and fh.cfg.has_node(a.args[0]) and strip_sites(fh.term_of(a.args[0])) == ("elem", ("attr", vp, "elts")):
-                    designed = True  # the same test written as a loop over v.elts
-                elif isinstance(a, ast.Compare) and any(isinstance(x, ast.Call) and isinstance(x.func, ast.Name) and x.func.id == "len" for x in ast.walk(a)) and all(tx == ("attr", vp, "elts") for tx in about_v):
-                    designed = True  # the index bound (n >= len(v.elts)) seen with either truth value on the way here
-                run.check(designed, "C14.R5", h, s_, "the refusal depends on the literal only through 'has a top-level starred element'", f"{h.name} leaves the projection in place when {ast.unparse(a)[:100]} is {pol}: a condition on the literal other than a top-level *element (e.g. a star somewhere inside an element) keeps tuples/lists and their subscripts in the query although the position is static", "any(isinstance(e, ast.Starred) for e in v.elts)")
+                    return it_ok and elt_ok
+                if isinstance(a, ast.Call) and isinstance(a.func, ast.Name) and a.func.id == "isinstance" and len(a.args) == 2 and ast.unparse(a.args[1]) == "ast.Starred" and fh.cfg.has_node(a.args[0]) and strip_sites(fh.term_of(a.args[0])) == ("elem", ("attr", vp, "elts")):
+                    return True  # the same test written as a loop over v.elts
+                if isinstance(a, ast.Compare) and any(isinstance(x, ast.Call) and isinstance(x.func, ast.Name) and x.func.id == "len" for x in ast.walk(a)) and all(tx == ("attr", vp, "elts") for tx in av):
+                    return True  # the index bound (n >= len(v.elts)) seen with either truth value on the way here
+                return False
+
+            for a, pol in full_atoms:
+                if (ast.dump(a), pol) in raw_keys and derived and isinstance(a, ast.Call) and not (isinstance(a.func, ast.Name) and a.func.id in ("any", "all", "isinstance", "len", "type")):
+                    continue  # a package predicate: judged through the conditions it stands for
+                if not about_v(a):
+                    continue
+                run.check(designed(a, pol), "C14.R5", h, s_, "the refusal depends on the literal only through 'has a top-level starred element'", f"{h.name} leaves the projection in place when {ast.unparse(a)[:100]} is {pol}: a condition on the literal other than a top-level *element (e.g. a star somewhere inside an element) keeps tuples/lists and their subscripts in the query although the position is static", "any(isinstance(e, ast.Starred) for e in v.elts)")
         run.floor("C14.R5", n_ref, 1, f"left-intact returns in {h.name}")
 
     va = cls.methods["visit_Attribute"]
